@@ -63,15 +63,18 @@ type c01Conc struct {
 	Items   []c01ConcItem `json:"items"`
 }
 type c01Case struct {
-	Conc      *c01Conc  `json:"conc"`
-	Dual      *c01Dual  `json:"dual"`
-	Secret    string    `json:"secret"`
-	ClientGen bool      `json:"client_gen"`
-	LV        uint32    `json:"lv"`
-	Cfg       *c01Cfg   `json:"cfg"`
-	V6        bool      `json:"v6"`
-	Transport string    `json:"transport"`
-	Params    c01Params `json:"params"`
+	// Gens: the selector holds these generations (instead of generation 7 = Cfg); Gen is the one registered for
+	Gens      map[string]*c01Cfg `json:"gens"`
+	Gen       uint32             `json:"gen"`
+	Conc      *c01Conc           `json:"conc"`
+	Dual      *c01Dual           `json:"dual"`
+	Secret    string             `json:"secret"`
+	ClientGen bool               `json:"client_gen"`
+	LV        uint32             `json:"lv"`
+	Cfg       *c01Cfg            `json:"cfg"`
+	V6        bool               `json:"v6"`
+	Transport string             `json:"transport"`
+	Params    c01Params          `json:"params"`
 }
 type c01Side struct {
 	Out    string `json:"out"` // ok | err | panic
@@ -279,6 +282,15 @@ func c01Run(rm *RegistrationManager, stationPriv, stationPub [32]byte, cs c01Cas
 	if cs.Cfg != nil {
 		sel.Networks[7] = &phantoms.SubnetConfig{WeightedSubnets: c01List(cs.Cfg)}
 	}
+	if cs.Gens != nil {
+		delete(sel.Networks, 7)
+		for g, c := range cs.Gens {
+			var id uint
+			fmt.Sscanf(g, "%d", &id)
+			sel.Networks[id] = &phantoms.SubnetConfig{WeightedSubnets: c01List(c)}
+		}
+		gen = cs.Gen
+	}
 	rm.PhantomSelector = sel
 	lv := cs.LV
 	covert := "192.0.2.1:443"
@@ -302,7 +314,7 @@ func c01Run(rm *RegistrationManager, stationPriv, stationPub [32]byte, cs c01Cas
 		st.Port = int(reg.PhantomPort)
 		id := (*reg.TransportPtr).GetIdentifier(reg)
 		st.Tag = hex.EncodeToString([]byte(id))
-		if ph, err := sel.Select(sk.ConjureSeed, 7, uint(cs.LV), cs.V6); err == nil && ph != nil {
+		if ph, err := sel.Select(sk.ConjureSeed, uint(gen), uint(cs.LV), cs.V6); err == nil && ph != nil {
 			st.RP = ph.SupportRandomPort()
 			st.HasRP = true
 		}
